@@ -2,6 +2,7 @@
 # Applies every /verif/seeded/<id>-<n>/patch.diff to /repo, runs the property's quick check, reverts.
 cd /verif || exit 2
 ./setup.sh >/dev/null || exit 2
+if [ -n "$(git -C /repo status --porcelain)" ]; then echo "refusing to run: /repo has uncommitted changes (this script reverts the working tree)"; exit 2; fi
 for d in seeded/${1:-*}/; do
   name=$(basename "$d"); prop=${name%%-*}
   [ -f "$d/patch.diff" ] || continue
